@@ -11,6 +11,8 @@
 //!
 //! alphabet deck      : all C(52,k) k-subsets of the implementation's deck
 //! alphabet deckblank : all k-multisets over the 52 deck cards and the blank word
+//! alphabet deckblank_ordered : all 53^k ordered k-tuples over the 52 cards and blank (use --order 0)
+//! --expect-blank "<line>"     : the constant for cases that hold a blank word, when it differs
 //! alphabet deckblank_invalid : those of them that hold a blank or a repeated card (not k distinct real cards)
 //! order 0 : deck order (ace of spades first) / non-decreasing alphabet index
 //! order 1 : reversed
@@ -70,6 +72,20 @@ fn next_multi(idx: &mut [usize], n: usize) -> bool {
     true
 }
 
+/// next k-tuple over 0..n (odometer); false when exhausted
+fn next_tuple(idx: &mut [usize], n: usize) -> bool {
+    let mut i = idx.len();
+    while i > 0 {
+        if idx[i - 1] + 1 < n {
+            idx[i - 1] += 1;
+            return true;
+        }
+        idx[i - 1] = 0;
+        i -= 1;
+    }
+    false
+}
+
 pub fn sweep(args: &[String]) {
     let op = arg(args, "--op").expect("--op").to_string();
     let k: usize = arg(args, "--k").expect("--k").parse().unwrap();
@@ -77,6 +93,10 @@ pub fn sweep(args: &[String]) {
     let multi = alphabet.starts_with("deckblank");
     // deckblank_invalid: only the multisets that are NOT k distinct real cards (a blank or a repeated card)
     let invalid_only = alphabet == "deckblank_invalid";
+    // deckblank_ordered: every ORDERED k-tuple over the 52 cards and blank (53^k), not only the multisets
+    let ordered = alphabet == "deckblank_ordered";
+    // cases holding a blank word may have their own constant
+    let expect_blank = arg(args, "--expect-blank").map(str::to_string);
     let order: u32 = arg(args, "--order").map_or(0, |s| s.parse().unwrap());
     let expect = arg(args, "--expect").expect("--expect").to_string();
     let threads: u64 = arg(args, "--threads").map_or(16, |s| s.parse().unwrap());
@@ -95,7 +115,7 @@ pub fn sweep(args: &[String]) {
         (0..threads).map(|_| Arc::new((AtomicU64::new(0), Mutex::new(String::new())))).collect();
     let mut handles = Vec::new();
     for t in 0..threads {
-        let (op, expect, alpha) = (op.clone(), expect.clone(), alpha.clone());
+        let (op, expect, alpha, expect_blank) = (op.clone(), expect.clone(), alpha.clone(), expect_blank.clone());
         let (bad_total, state) = (bad_total.clone(), states[t as usize].clone());
         handles.push(std::thread::spawn(move || {
             let mut idx: Vec<usize> = if multi { vec![0; k] } else { (0..k).collect() };
@@ -136,7 +156,11 @@ pub fn sweep(args: &[String]) {
                     }
                     state.0.store(done, Ordering::Relaxed);
                     let r = catch_unwind(AssertUnwindSafe(|| exec(0, &line))).unwrap_or_else(|_| "P".to_string());
-                    if r != expect {
+                    let want = match &expect_blank {
+                        Some(e) if ws.contains(&0) => e,
+                        _ => &expect,
+                    };
+                    if r != *want {
                         bad_total.fetch_add(1, Ordering::Relaxed);
                         if bad.len() < max_bad {
                             bad.push(format!("BAD {line} => {r}"));
@@ -145,7 +169,13 @@ pub fn sweep(args: &[String]) {
                     done += 1;
                 }
                 c += 1;
-                let more = if multi { next_multi(&mut idx, n) } else { next_combo(&mut idx, n) };
+                let more = if ordered {
+                    next_tuple(&mut idx, n)
+                } else if multi {
+                    next_multi(&mut idx, n)
+                } else {
+                    next_combo(&mut idx, n)
+                };
                 if !more {
                     break;
                 }
